@@ -468,6 +468,13 @@ def rule_e8(ctx):
     result = {(r, tuple(p)) for (r, p) in body.trace_operand(pt["args"][0])}
     if not all(r[0] == "agg" for (r, p) in result):
         raise AnchorMissing("E8: the environment mux_envs pushes scopes on is not a fresh one")
+    # scope i of the result is merged from scope i of both operands: a binding is looked up in the scope map of the pair that is
+    # being merged, never through Env::get (which answers with the innermost visible binding of the name, i.e. another scope's)
+    for b, t in body.calls():
+        if (mir.callee(t) or "").endswith("Env::<T>::get") and not body.blocks[b]["cleanup"]:
+            res.bad(Finding("E8", MUX_ENVS, "binding looked up through Env::get while scopes are merged",
+                            "the operand binding is taken from the innermost scope that binds the name instead of the scope being merged: after an if / match inside a block that shadows x, "
+                            "the outer x holds the inner x's value", t["sp"]))
 
     def muxed_value(lt):
         """None if the value bound by this call is a fresh vector of push_mux(condition, a-bit, b-bit), else (message, span)"""
